@@ -30,10 +30,10 @@ VARIANTS = [
                 group1.calculate_total_pka()
                 group2.calculate_total_pka()
 """, ""),
-               (CG, """        self.swap_interactions([group1], [group2])
+               (CG, """            determinant_list[:] = original
         group1.calculate_total_pka()
         group2.calculate_total_pka()
-        # check difference in free energy""", """        self.swap_interactions([group1], [group2])
+        # check difference in free energy""", """            determinant_list[:] = original
         # check difference in free energy""")]},
     {'name': 'late-determinant-edit', 'rule': 'C02.R1',
      'edits': [(M, "        # find non-covalently coupled groups\n        self.find_non_covalently_coupled_groups()\n", "        # find non-covalently coupled groups\n        self.find_non_covalently_coupled_groups()\n        for name in self.conformation_names:\n            for group in self.conformations[name].groups:\n                group.determinants['coulomb'] = [d for d in group.determinants['coulomb'] if abs(d.value) > 0.01]\n")]},
